@@ -1,5 +1,6 @@
 import BddProofs.Reach
 import BddProofs.RestrictSem
+import BddProofs.HeldGc
 /-! # C07 — memoisation is invisible: results never depend on cache state or size
 
 (a) Every operation theorem (C02, C03, C08–C12, C15) is stated for an arbitrary `Good` state, i.e.
@@ -66,6 +67,14 @@ theorem C07_collection_clears {s s' : St} (hg : Good s) {roots : List Ref} (hliv
 theorem C07_hit_is_fact {s : St} (hg : Good s) {k r} (h : (s.cacheGet k).2 = some r) : Fact s.nodes k r :=
   hg.cacheHit h
 
+/-- a collection that cannot take its mutable borrow (the caller still holds a guard from `cache()`,
+`size_cache()` or `storage()`) panics after clearing at most the caches: the table is untouched and
+the manager stays good, so no cache entry can outlive a node it names -/
+theorem C07_interrupted_collection {s : St} (hg : Good s) (which : Nat) :
+    Good (heldState (collectGarbageHeld which s)) ∧
+    (heldState (collectGarbageHeld which s)).storage = s.storage :=
+  collectGarbageHeld_good hg which
+
 /-- non-vacuity -/
 example : Reachable s4 ∧ Good s4 := ⟨.init (sb := 4) (bb := 4) (cb := 4) new4_ok, s4_good⟩
 
@@ -76,3 +85,4 @@ end P
 #print axioms P.C07_entries_are_true
 #print axioms P.C07_collection_clears
 #print axioms P.C07_hit_is_fact
+#print axioms P.C07_interrupted_collection
